@@ -231,6 +231,11 @@ pub struct Creation {
     pub help: String,
     pub consts: Vec<(String, String)>,
     pub vars: Vec<String>,
+    /// which of the equivalent builder routes constructs the options (0: Opts setters + From<Opts>;
+    /// 1: one const_label call per label, HistogramOpts' own setters; 2: as 1 plus a junk variable
+    /// label on the options that the vector constructor must override; 3: T::new(name, help) where possible)
+    #[serde(default)]
+    pub path: u8,
 }
 #[derive(Serialize, Deserialize, Clone, Debug)]
 pub struct NamesPlan {
@@ -313,7 +318,8 @@ fn gen_creation(r: &mut Rng) -> Creation {
     for _ in 0..nv {
         vars.push(mostly_ok(r, LABEL_POOL, &["l", "a", "a_1", "_a", "L", "w"]));
     }
-    Creation { kind, namespace, subsystem, name, help, consts, vars }
+    let path = r.below(4) as u8;
+    Creation { kind, namespace, subsystem, name, help, consts, vars, path }
 }
 
 fn gen_names_plan(seed: u64) -> NamesPlan {
@@ -341,22 +347,46 @@ fn create(c: &Creation) -> std::result::Result<Option<Box<dyn Collector>>, Strin
     for (k, v) in &c.consts {
         consts.insert(k.clone(), v.clone());
     }
-    let opts = Opts::new(c.name.clone(), c.help.clone()).namespace(c.namespace.clone()).subsystem(c.subsystem.clone()).const_labels(consts.clone());
+    let is_vec = matches!(c.kind, CKind::CounterVec | CKind::HistogramVec);
+    let mut opts = Opts::new(c.name.clone(), c.help.clone()).namespace(c.namespace.clone()).subsystem(c.subsystem.clone());
+    let mut hopts = HistogramOpts::new(c.name.clone(), c.help.clone()).namespace(c.namespace.clone()).subsystem(c.subsystem.clone());
+    if c.path == 0 {
+        opts = opts.const_labels(consts.clone());
+        hopts = HistogramOpts::from(opts.clone());
+    } else {
+        for (k, v) in c.consts.iter().rev() {
+            opts = opts.const_label(k.clone(), v.clone());
+            hopts = hopts.const_label(k.clone(), v.clone());
+        }
+        if c.path == 2 && is_vec {
+            opts = opts.variable_label("zz_junk");
+            hopts = hopts.variable_label("zz_junk");
+        }
+    }
+    let hopts = hopts.buckets(vec![1.0]);
+    let expect_fq = {
+        let parts: Vec<&str> = [c.namespace.as_str(), c.subsystem.as_str(), c.name.as_str()].into_iter().filter(|s| !s.is_empty()).collect();
+        if c.name.is_empty() { String::new() } else { parts.join("_") }
+    };
+    if opts.fq_name() != expect_fq || hopts.fq_name() != expect_fq {
+        return Err(format!("\u{1}fq_name: Opts {:?} / HistogramOpts {:?}, expected {:?}", opts.fq_name(), hopts.fq_name(), expect_fq));
+    }
+    let plain = c.path == 3 && c.namespace.is_empty() && c.subsystem.is_empty() && c.consts.is_empty();
     let names: Vec<&str> = c.vars.iter().map(|s| s.as_str()).collect();
     let e = |e: Error| e.to_string();
     Ok(Some(match c.kind {
         CKind::Counter => {
-            let m = Counter::with_opts(opts).map_err(e)?;
+            let m = if plain { Counter::new(c.name.clone(), c.help.clone()) } else { Counter::with_opts(opts) }.map_err(e)?;
             m.inc();
             Box::new(m)
         }
         CKind::IntGauge => {
-            let m = IntGauge::with_opts(opts).map_err(e)?;
+            let m = if plain { IntGauge::new(c.name.clone(), c.help.clone()) } else { IntGauge::with_opts(opts) }.map_err(e)?;
             m.set(3);
             Box::new(m)
         }
         CKind::Histogram => {
-            let m = Histogram::with_opts(HistogramOpts::from(opts).buckets(vec![1.0])).map_err(e)?;
+            let m = Histogram::with_opts(hopts).map_err(e)?;
             m.observe(0.5);
             Box::new(m)
         }
@@ -367,7 +397,7 @@ fn create(c: &Creation) -> std::result::Result<Option<Box<dyn Collector>>, Strin
             Box::new(m)
         }
         CKind::HistogramVec => {
-            let m = HistogramVec::new(HistogramOpts::from(opts).buckets(vec![1.0]), &names).map_err(e)?;
+            let m = HistogramVec::new(hopts, &names).map_err(e)?;
             let vals: Vec<&str> = names.iter().map(|_| "x").collect();
             m.get_metric_with_label_values(&vals).map_err(e)?.observe(0.5);
             Box::new(m)
@@ -402,6 +432,7 @@ fn execute_c09(plan: &NamesPlan, mode: Mode) -> RunOut {
                 let want = model_accepts(c);
                 match crate::seams::catch(|| create(c)) {
                     Err(p) => v.push(Violation::new("C09/panic", "C09/panic", format!("constructor panicked for {:?}: {}", c, p))),
+                    Ok(Err(m)) if m.starts_with('\u{1}') => v.push(Violation::new("C09/fq-name", "C09/fq-name", format!("{:?}: {}", c, &m[1..]))),
                     Ok(got) => {
                         if got.is_ok() != want {
                             let why = if want { "rejected a well-formed" } else { "accepted a malformed" };
@@ -437,6 +468,9 @@ fn execute_c09(plan: &NamesPlan, mode: Mode) -> RunOut {
                     for m in &f.metrics {
                         let mut seen = BTreeSet::new();
                         for (k, _) in &m.labels {
+                            if k == "zz_junk" {
+                                v.push(Violation::new("C09/exposed", "C09/exposed-label:options-variable-label-not-overridden", format!("{:?} carries a variable label set on the options although the vector was built with its own label names", name)));
+                            }
                             let from_common = plan.common.iter().any(|(c, _)| c == k);
                             if !valid_label_name(k) {
                                 let key = if from_common { "C09/exposed-label:malformed-registry-label" } else { "C09/exposed-label" };
